@@ -31,12 +31,12 @@ Proof. intros Hab Ha Hb Hn Hg Ea Eb Hx Hy Hm v. rewrite Hn. rewrite !d_find_set.
 
 Theorem add_edge_refines gg vtv tv s a b k : ginv s -> rep_gstate gg vtv tv s ->
   match CFGraph_add_edge gg vtv tv a b k with
-  | None => add_edge s a b k = Err
-  | Some (gg', vtv', tv') => exists s', add_edge s a b k = Ok s' /\ rep_gstate gg' vtv' tv' s' end.
+  | PyExn st => add_edge s a b k = Err /\ st = (gg, vtv, tv)
+  | PyOk (gg', vtv', tv') => exists s', add_edge s a b k = Ok s' /\ rep_gstate gg' vtv' tv' s' end.
 Proof. intros Hinv (Hg & (HLv & Hkv & Hfv) & Ht). pose proof Hinv as (Hwf & HL & _ & _).
   unfold CFGraph_add_edge, CFGraph_is_loopless. destruct (add_edge s a b k) as [s'|] eqn:E.
-  2:{ unfold add_edge in E. destruct (Nat.eqb_spec a b) as [Q|Q]; cbn [negb]; [reflexivity|]. destruct (Z.leb_spec k 0) as [Q1|Q1]; [reflexivity|].
-      rewrite !(rep_graph_mem gg (adj s)) by exact Hg. change (gn s) with (nv (adj s)) in *. destruct (Nat.ltb a (nv (adj s))), (Nat.ltb b (nv (adj s))); cbn [andb negb orb] in *; try reflexivity. discriminate. }
+  2:{ unfold add_edge in E. destruct (Nat.eqb_spec a b) as [Q|Q]; cbn [negb]; [split; reflexivity|]. destruct (Z.leb_spec k 0) as [Q1|Q1]; [split; reflexivity|].
+      rewrite !(rep_graph_mem gg (adj s)) by exact Hg. change (gn s) with (nv (adj s)) in *. destruct (Nat.ltb a (nv (adj s))), (Nat.ltb b (nv (adj s))); cbn [andb negb orb] in *; try (split; reflexivity). discriminate. }
   destruct (add_edge_inv s a b k s' Hinv E) as (Hinv' & Hgn & Hab & Hk & Ha & Hb & Hm).
   destruct (Nat.eqb_spec a b) as [Q|_]; [contradiction|]. cbn [negb]. destruct (Z.leb_spec k 0) as [Q1|_]; [lia|].
   pose proof (Hg a) as Ga. pose proof (Hg b) as Gb. change (nv (adj s)) with (gn s) in Ga, Gb.
@@ -71,7 +71,7 @@ Proof. intros Hinv (Hg & (HLv & Hkv & Hfv) & Ht). pose proof Hinv as (Hwf & HL &
     rewrite (d_find_set_other a b _ gg) by (intros Q; apply Hab; symmetry; exact Q). rewrite Eb. rewrite Eva. rewrite (d_find_set_other a b _ vtv) by (intros Q; apply Hab; symmetry; exact Q). rewrite Evb.
     exists s'. split; [reflexivity|]. split; [apply RG; lia|]. split; [apply RV; reflexivity|]. rewrite Es'. cbn [tot]. lia. Qed.
 
-Theorem get_valence_refines gg vtv tv s v : rep_gstate gg vtv tv s -> CFGraph_get_valence vtv v = if Nat.ltb v (gn s) then Some (nthZ (valc s) v) else None.
+Theorem get_valence_refines gg vtv tv s v : rep_gstate gg vtv tv s -> CFGraph_get_valence vtv v = if Nat.ltb v (gn s) then PyOk (nthZ (valc s) v) else PyExn tt.
 Proof. intros (_ & (_ & _ & Hf) & _). unfold CFGraph_get_valence, d_mem. rewrite (Hf v). destruct (Nat.ltb v (gn s)); reflexivity. Qed.
 Theorem is_loopless_refines a b : CFGraph_is_loopless a b = negb (Nat.eqb a b).
 Proof. reflexivity. Qed.
